@@ -39,7 +39,16 @@ run against every change aimed at them (`SM_VERIF_SRC=<old checkout> tools/seedm
 `out/seedattr_r6`), so that "would have been missed" is measured, not judged. Round 7: eight areas again (the key-binding JWT end to end; errors turned into successes or defaults; the JSON
 serialization end to end; string and byte-level handling; well-meant strictness or leniency that goes slightly too far;
 the issuer's payload assembly; the verifier's disclosure bookkeeping; changes outside the three big files including
-Cargo features) — 12 of its 24 would have been missed by the pre-round checks of the property aimed at. Every change was confirmed here
+Cargo features) — 12 of its 24 would have been missed by the pre-round checks of the property aimed at. Round 8: two properties per agent (all 16 covered) with the instruction to prefer triggers that are relations
+between values or value shapes (two encodings of one value, equal-looking values of different JSON type, empty vs
+absent vs null, equal siblings, prefixes / case / normalisation variants, boundary counts, a value valid in one role
+reused in another) — 7 of 24 would have been missed by the pre-round checks of the property aimed at. Round 9:
+*compensating* changes — two or three sites edited so that the library stays consistent with itself (its own
+issuer, holder and verifier still interoperate, round trips pass) while what it emits or accepts deviates from the
+specification for some inputs; eight areas (disclosure text and digest; the key-binding JWT; the JSON envelope; `_sd` /
+placeholders / `_sd_alg`; cnf; compact framing; salts and decoys; iss / exp / iat). This round tests whether the
+oracles are independent of the library: the harness computes digests, sd_hash, framing and (since this round) JWS
+signatures itself. Every change was confirmed here
 (`tools/confirm_seed.sh` in a scratch worktree: demo passes without the change, 146/146 suite tests
 pass with it, demo fails with it) and run against all 16 quick checks in scratch copies
 (`tools/seedmatrix.sh`; `/repo` itself is never modified). Kept under `/verif/seeded/<name>/`
